@@ -1,5 +1,5 @@
 CONSTANTS
   Tier = "tiny"
 SPECIFICATION Spec
-INVARIANTS SearchInv Agree Design Emit
+INVARIANTS SearchInv AtEnd
 CHECK_DEADLOCK FALSE
